@@ -362,6 +362,9 @@ func (z dec) div(z2, u, v dec) (q, r dec) {
 // getDec returns a *dec of len n. The contents may not be zero.
 // The pool holds *dec to avoid allocation when converting to interface{}.
 func getDec(n int) *dec {
+	if z := verifGetDec(n); z != nil { // verification hook, no-op unless built with the verif tag
+		return z
+	}
 	var z *dec
 	if v := decPool.Get(); v != nil {
 		z = v.(*dec)
@@ -374,6 +377,9 @@ func getDec(n int) *dec {
 }
 
 func putDec(x *dec) {
+	if verifPutDec(x) { // verification hook, no-op unless built with the verif tag
+		return
+	}
 	decPool.Put(x)
 }
 
